@@ -1,6 +1,8 @@
 /* vsched scenario family: work-unit life cycle (C01 C03 C06 C11 C12 C13).
  * usage: sc_units <seed> <mode> <log> <nes> <nunits> <steps> <poolkind 0 fifo|1 fifo_wait|2 randws> <sched 0 basic|1 basic_wait|2 prio|3 randws>
  *                 [topo 0 classic | 1 early stream join | 2 shared pool in front of each secondary stream's own pool, early stream join]
+ *                 [recycle 0|1: the secondary streams' pools are user-owned (not automatic) and have already served a stream
+ *                  that was joined and freed before the streams of this run are created over them]
  * topo >= 1: the primary joins the secondary streams while units (also blocked ones, resumed later by the resumer thread)
  * are still alive in their pools: ABT_xstream_join must return only after all of them have terminated.
  * Units (named / unnamed ULTs, tasklets) run generated scripts: yield, create+join a child, suspend (a resumer
@@ -28,7 +30,7 @@ static unit U[MAXU];
 static int nunits, maxunits = 12, nsteps = 4;
 static volatile int live_workers;
 static volatile int stop_resumer;
-static int poolkind, schedkind, topo;
+static int poolkind, schedkind, topo, recycle;
 static int shared_pool = -1; /* topo 2: index of the pool every secondary stream serves in front of its own */
 static int npools;
 
@@ -542,6 +544,7 @@ int main(int argc, char **argv)
     poolkind = (int)vsa_param(3, 0);
     schedkind = (int)vsa_param(4, 0);
     topo = (int)vsa_param(5, 0);
+    recycle = (int)vsa_param(6, 0);
     if (nes < 2)
         topo = 0;
     if (maxunits > MAXU)
@@ -549,7 +552,7 @@ int main(int argc, char **argv)
     ABT_init(0, NULL);
     vsa_begin();
     vs_autoname_units(1);
-    vs_note("scenario units nes=%d maxunits=%d nsteps=%d poolkind=%d sched=%d topo=%d", nes, maxunits, nsteps, poolkind, schedkind, topo);
+    vs_note("scenario units nes=%d maxunits=%d nsteps=%d poolkind=%d sched=%d topo=%d recycle=%d", nes, maxunits, nsteps, poolkind, schedkind, topo, recycle);
     /* streams */
     sc_nes = nes;
     npools = nes;
@@ -567,12 +570,19 @@ int main(int argc, char **argv)
     if (topo == 2) {
         shared_pool = nes;
         npools = nes + 1;
-        ABT_OK(ABT_pool_create_basic(pk, ABT_POOL_ACCESS_MPMC, ABT_TRUE, &sc_pool[shared_pool]));
+        ABT_OK(ABT_pool_create_basic(pk, ABT_POOL_ACCESS_MPMC, recycle ? ABT_FALSE : ABT_TRUE, &sc_pool[shared_pool]));
         vsa_name_pool(sc_pool[shared_pool], "P%d", shared_pool);
     }
     for (int i = 1; i < nes; i++) {
-        ABT_OK(ABT_pool_create_basic(pk, ABT_POOL_ACCESS_MPMC, ABT_TRUE, &sc_pool[i]));
+        ABT_OK(ABT_pool_create_basic(pk, ABT_POOL_ACCESS_MPMC, recycle ? ABT_FALSE : ABT_TRUE, &sc_pool[i]));
         vsa_name_pool(sc_pool[i], "P%d", i);
+        if (recycle) {
+            /* a first stream over this pool comes and goes: the pool's consumer count must be back to zero */
+            ABT_xstream tmp;
+            ABT_OK(ABT_xstream_create_basic(sk, 1, &sc_pool[i], ABT_SCHED_CONFIG_NULL, &tmp));
+            ABT_OK(ABT_xstream_join(tmp));
+            ABT_OK(ABT_xstream_free(&tmp));
+        }
         if (topo == 2) {
             /* the shared pool comes first: the scheduler must still look at its own pool when the shared one is empty */
             ABT_pool two[2] = { sc_pool[shared_pool], sc_pool[i] };
@@ -664,6 +674,9 @@ int main(int argc, char **argv)
     }
     for (int i = 1; i < nes; i++)
         ABT_OK(ABT_xstream_free(&sc_xs[i]));
+    if (recycle)
+        for (int i = 1; i < npools; i++)
+            ABT_OK(ABT_pool_free(&sc_pool[i]));
     for (int i = 0; i < nunits; i++) {
         unit *u = &U[i];
         if (u->cancel_me)
